@@ -838,6 +838,11 @@ class Model:
             r = V(fn("str.split", z3.StringSort(), z3.StringSort(), Ref)(t, args[0].term), SeqT(STR))
             st.assume(seq_len(r.term) >= 1)
             st.assume((seq_len(r.term) >= 2) == z3.Contains(t, args[0].term))       # one piece more than separators (non-empty separator)
+            # the first piece: the text before the first separator
+            first = seq_at(r.term, 0, STR)
+            st.assume(z3.Implies(z3.Not(z3.Contains(t, args[0].term)), first == t))
+            st.assume(z3.Implies(z3.And(z3.Contains(t, args[0].term), z3.Length(args[0].term) > 0),
+                                 z3.And(z3.PrefixOf(z3.Concat(first, args[0].term), t), z3.Not(z3.Contains(first, args[0].term)))))
             return r
         if name == "split" and len(args) == 2 and args[0].ty is STR and args[1].ty is INT and z3.is_int_value(args[1].term):
             k = args[1].term.as_long()
